@@ -55,11 +55,13 @@ class Likelihood:
 
     def __call__(self, x):
         x = np.asarray(x)
+        # the likelihood itself always computes in double precision, whatever dtype the prior transform hands over
+        xc = x if x.dtype == np.float64 else x.astype(np.float64)
         if self.mode == "vec":
             if self.pointwise:
-                ll = np.array([float(self._ll(xi)) for xi in x], dtype=float)
+                ll = np.array([float(self._ll(xi)) for xi in xc], dtype=float)
             else:
-                ll = np.asarray(self._ll(x), dtype=float)
+                ll = np.asarray(self._ll(xc), dtype=float)
             with self._lock:
                 self.n_calls += 1
                 self.n_points += len(x)
@@ -73,7 +75,7 @@ class Likelihood:
             return ll
         if self.delay is not None:
             self.delay(x)
-        ll = float(self._ll(x))
+        ll = float(self._ll(xc))
         with self._lock:
             self.n_calls += 1
             self.n_points += 1
@@ -102,10 +104,12 @@ class Likelihood:
 class Transform:
     """Prior transform with call counter (must be pure: re-evaluated by the monitors)."""
 
-    def __init__(self, target):
+    def __init__(self, target, dtype=None):
         self.t = target
         self.n_calls = 0
+        self.dtype = dtype
 
     def __call__(self, u):
         self.n_calls += 1
-        return self.t.prior_transform(u)
+        x = self.t.prior_transform(u)
+        return x if self.dtype is None else np.asarray(x).astype(self.dtype)
